@@ -8,7 +8,7 @@ CLAIMED = {
           'of the property (lemmas). Function-level proof; unbounded.',
   'design_ref': 'DESIGN.md section 5 (C16)',
   'note': 'Trusted: Verus/Z3, vstd specs of Vec/BTreeMap/iterators, the axiom that Name\'s derived Ord is a total order, the logged rewrite rules R1/R2; '
-          'termination of is_conformant is not proved. Where coercion is applied in the evaluator is not decided.',
+          'both relations are proved terminating (is_conformant by the heights of both arguments). Where coercion is applied in the evaluator is not decided.',
  },
  'C17': {
   'text': 'Verus proves a representation invariant (pairwise distinct namespaces and names; both indexes describe exactly the stored list, '
